@@ -429,3 +429,148 @@ Proof.
     { apply (IH _ _ lo ex d); [destruct lo; lia|]. intros E. destruct (Hex E). split; lia. }
     destruct v as [[t|b]|e]; exact G.
 Qed.
+
+(* ---------------------------------------------------------------- forward-only clock: MonoTimer = Timer *)
+
+(* while the clock does not go back, MonoTimer reads exactly like Timer:
+   elapsed = now - start, remaining = stop - now, expired = (stop <= now) *)
+Lemma m_forward_exact : forall (s : mono Z) r c k,
+  m_last s <= r -> k <> RDuration ->
+  m_step s (r :: c) (MRead k) =
+    ({| m_start := m_start s; m_stop := m_stop s; m_last := r; m_retro := m_retro s |}, c,
+     Ok (report k (m_start s) (m_stop s) r)).
+Proof.
+  intros s r c k Hr Hk. cbn [m_step]. unfold m_read, m_latest. cbn [tick].
+  cbn [tsub tadd tltb tzero ZTime].
+  destruct (Z.ltb_spec (r - m_last s) 0); [lia|].
+  replace (m_last s + (r - m_last s)) with r by lia.
+  destruct k; try congruence; reflexivity.
+Qed.
+
+(* total forward movement of a reading sequence that starts from [last] *)
+Fixpoint fwd (last : Z) (rs : list Z) : Z :=
+  match rs with
+  | [] => 0
+  | r :: rs' => Z.max 0 (r - last) + fwd r rs'
+  end.
+
+Lemma last_cons_default : forall (rs : list Z) r d, last (r :: rs) d = last rs r.
+Proof.
+  induction rs as [|z rs IH]; intros r d; [reflexivity|].
+  change (last (r :: z :: rs) d) with (last (z :: rs) d). rewrite (IH z d), (IH z r). reflexivity.
+Qed.
+
+Fixpoint m_final {T} `{Time T} (s : mono T) (c : clock T) (ops : list (mop T)) : mono T :=
+  match ops with
+  | [] => s
+  | o :: r => let '(s', c', _) := m_step s c o in m_final s' c' r
+  end.
+
+(* retro=True: after `latest` has consumed the readings rs (any order of values),
+   elapsed has grown by exactly the forward movement, the duration is unchanged *)
+Lemma m_elapsed_closed_form : forall rs (s : mono Z),
+  m_retro s = true ->
+  let s' := m_final s rs (repeat MLatest (length rs)) in
+  el s' = el s + fwd (m_last s) rs /\ du s' = du s /\ m_last s' = last rs (m_last s) /\ m_retro s' = true.
+Proof.
+  induction rs as [|r rs IH]; intros s R.
+  - cbn. repeat split; auto; lia.
+  - cbn [length repeat m_final m_step].
+    pose proof (m_latest_Z s (r :: rs)) as L.
+    destruct (m_latest s (r :: rs)) as [[s1 c1] v]. cbn [tick fst snd] in L.
+    destruct L as (-> & R1 & D & L). destruct v as [l|e].
+    + destruct L as (_ & Hl & E & _). cbn [bind].
+      destruct (IH s1) as (E2 & D2 & L2 & R2); [congruence|]. cbv zeta in *.
+      cbn [fwd]. rewrite E2, D2, L2, Hl, E. split; [lia|]. split; [lia|]. split; [|exact R2].
+      symmetry. apply last_cons_default.
+    + destruct L as (_ & _ & Rf & _). congruence.
+Qed.
+
+(* ================================================================== Part 4 *)
+(* expired never reverts to False needs no exactness, only that addition is
+   monotone — which rounding to nearest preserves (binary64 without nan/inf
+   satisfies these three laws; Z does, below). *)
+Class AddMono (T : Type) `{Time T} := {
+  am_trans : forall a b c, tleb a b = true -> tleb b c = true -> tleb a c = true;
+  am_add : forall a b c, tleb a b = true -> tleb (tadd a c) (tadd b c) = true;
+  am_fwd : forall a d, tltb d tzero = false -> tleb a (tadd a d) = true;
+}.
+
+#[export] Instance ZAddMono : AddMono Z.
+Proof. constructor; cbn [tleb tltb tadd tzero ZTime]; intros; lia. Qed.
+
+Section Latch.
+Context {T : Type} `{AddMono T}.
+
+Definition expd (s : mono T) : bool := tleb (m_stop s) (m_last s).   (* what expired would report *)
+
+Lemma m_latest_returns_last : forall (s : mono T) c,
+  let '(s', c', r) := m_latest s c in
+  match r with Ok l => l = m_last s' | Exc _ => s' = s end.
+Proof.
+  intros. unfold m_latest. destruct (tick c) as [now c1].
+  destruct (tltb _ _); [destruct (m_retro s)|]; reflexivity.
+Qed.
+
+Lemma m_latest_latch : forall (s : mono T) c,
+  expd s = true -> expd (fst (fst (m_latest s c))) = true.
+Proof.
+  intros s c E. unfold m_latest. destruct (tick c) as [now c1].
+  destruct (tltb (tsub now (m_last s)) tzero) eqn:D.
+  - destruct (m_retro s); cbn [fst]; [|exact E]. unfold expd in *. cbn. apply am_add. exact E.
+  - cbn [fst]. unfold expd in *. cbn. eapply am_trans; [exact E|]. apply am_fwd. exact D.
+Qed.
+
+Definition m_is_begin (o : mop T) : bool :=
+  match o with MStart _ _ | MRestart _ => true | _ => false end.
+
+Lemma m_step_latch : forall (s : mono T) c o,
+  m_is_begin o = false -> expd s = true -> expd (fst (fst (m_step s c o))) = true.
+Proof.
+  intros s c o Hb E. destruct o as [? ?|?|k|]; try discriminate Hb; cbn [m_step].
+  - unfold m_read. pose proof (m_latest_latch s c E) as L.
+    destruct k; [exact E| | |]; destruct (m_latest s c) as [[s' c'] r]; exact L.
+  - pose proof (m_latest_latch s c E) as L. destruct (m_latest s c) as [[s' c'] r]. exact L.
+Qed.
+
+Lemma m_expired_value : forall (s : mono T) c,
+  let '(s', c', v) := m_step s c (MRead RExpired) in
+  match v with Ok x => x = VB (expd s') | Exc _ => s' = s end.
+Proof.
+  intros. cbn [m_step]. unfold m_read. pose proof (m_latest_returns_last s c) as L.
+  destruct (m_latest s c) as [[s' c'] r]. destruct r; cbn [bind]; [subst; reflexivity|exact L].
+Qed.
+
+Fixpoint latch_ok (ex : bool) (tr : list (mop T * res (val T))) : Prop :=
+  match tr with
+  | [] => True
+  | (o, v) :: r =>
+    match o, v with
+    | MStart _ _, _ | MRestart _, _ => latch_ok false r
+    | MRead RExpired, Ok (VB b) => (ex = true -> b = true) /\ latch_ok (ex || b) r
+    | _, _ => latch_ok ex r
+    end
+  end.
+
+Lemma m_latch_gen : forall ops (s : mono T) c ex,
+  (ex = true -> expd s = true) ->
+  latch_ok ex (combine ops (m_obs s c ops)).
+Proof.
+  induction ops as [|o r IH]; intros s c ex Hex; [exact I|].
+  rewrite m_obs_cons. cbn [combine latch_ok].
+  destruct (m_is_begin o) eqn:B.
+  - destruct o; try discriminate B; apply IH; discriminate.
+  - pose proof (m_step_latch s c o B) as L.
+    assert (G : latch_ok ex (combine r (m_obs (fst (fst (m_step s c o))) (snd (fst (m_step s c o))) r))).
+    { apply IH. intros E. apply L, Hex, E. }
+    destruct o as [? ?|?|k|]; try discriminate B.
+    + destruct k; try exact G.
+      pose proof (m_expired_value s c) as V.
+      destruct (m_step s c (MRead RExpired)) as [[s' c'] v]. cbn [fst snd] in *.
+      destruct v as [x|e]; [|exact G]. subst x. cbv beta iota. split.
+      * intros E. apply L, Hex, E.
+      * apply IH. intros E. apply orb_true_iff in E. destruct E as [E|E]; [apply L, Hex, E|exact E].
+    + destruct (snd (m_step s c MLatest)) as [[?|?]|?]; exact G.
+Qed.
+
+End Latch.
